@@ -47,6 +47,8 @@ def graph_direct(mol, tag=True):
     """Build the nx graph through the library's own constructor (graph_from_molecule):
     node label = position in mol.atoms; node/edge insertion order = listing order."""
     import tucan.graph_utils as gu
+    if not hasattr(gu, "graph_from_molecule"):
+        return _graph_via_text(mol, tag)  # the constructor was refactored away: enter through the public reader instead
     attrs = {k: atom_attrs(a, tag) for k, a in enumerate(mol.atoms)}
     bonds = {}
     for bi, (i, j, t) in enumerate(mol.bonds):
@@ -56,6 +58,19 @@ def graph_direct(mol, tag=True):
             d[BTAG] = f"{min(ti, tj)}-{max(ti, tj)}"
         bonds[(i, j)] = d
     return gu.graph_from_molecule(attrs, bonds)
+
+
+def _graph_via_text(mol, tag=True):
+    import tucan.io.molfile_reader as mr
+    from .oracles import ctab
+    g = mr.graph_from_molfile_text(ctab.render_v3000(mol, ctab.V3Style(), random.Random(0)))
+    if tag:
+        for k, a in enumerate(mol.atoms):
+            g.nodes[k][TAG] = a.tag
+        for u, v, d in g.edges(data=True):
+            tu, tv = g.nodes[u][TAG], g.nodes[v][TAG]
+            d[BTAG] = f"{min(tu, tv)}-{max(tu, tv)}"
+    return g
 
 
 def harness_relabel(g, rng: random.Random, perm=None):
